@@ -383,6 +383,67 @@ def check_sidecar(case):
             require(values_match(back.array, expected_values(arr, fc["rep"]), fc["rep"]), "sidecar-values")
 
 
+# --------------------------------------------------------------------------- structured fuzzing of the reader
+
+
+def check_fuzz_input(case):
+    """one structured mutation of a valid file (pbt/fuzz_ovf.py), oracle = reject-or-equal against the reference reader"""
+    from pbt import fuzz_ovf
+
+    try:
+        fuzz_ovf.target(bytes.fromhex(case["hex"]))
+    except fuzz_ovf.FuzzViolation as v:
+        raise Violation(v.sig, v.msg + f" (input {case['hex']})") from None
+
+
+def enum_atheris(tier):
+    """coverage-guided campaign (atheris / libFuzzer), thorough tier only"""
+    if tier != "thorough":
+        return
+    for shard in range(8):
+        yield {"campaign": shard, "runs": int(os.environ.get("VERIF_FUZZ_RUNS", "150000"))}
+
+
+def check_atheris_campaign(case):
+    import glob
+    import subprocess
+    import sys
+
+    from pbt import core
+
+    deps = os.path.join(core.VERIF, ".deps")
+    env = dict(os.environ, PYTHONPATH=deps + os.pathsep + os.environ.get("PYTHONPATH", ""))
+    seed = int(os.environ.get("VERIF_SEED", "1")) * 100 + case["campaign"] + 1
+    with tempfile.TemporaryDirectory() as tmp:
+        corpus = os.path.join(tmp, "corpus")
+        os.makedirs(corpus)
+        if case["campaign"] % 2:  # half of the campaigns start from a few seeds, half from an empty corpus
+            for i in range(6):
+                open(os.path.join(corpus, f"s{i}"), "wb").write(bytes([i, 2, 0, 3, 0, 1]))
+        r = subprocess.run([sys.executable, os.path.join(core.VERIF, "pbt", "fuzz_ovf.py"), f"-runs={case['runs']}",
+                            f"-seed={seed}", "-max_len=48", "-len_control=0", f"-artifact_prefix={tmp}/", corpus],
+                           capture_output=True, text=True, env=env, cwd=tmp)
+        if r.returncode == 3:
+            tag("atheris-not-installed")
+            raise Reject()
+        crashes = glob.glob(os.path.join(tmp, "crash-*"))
+        done = [l for l in r.stderr.splitlines() if "DONE" in l or "cov:" in l][-1:]
+        tag("campaign-" + ("seeded-corpus" if case["campaign"] % 2 else "empty-corpus"))
+        if crashes:
+            data = open(crashes[0], "rb").read()
+            rdir = os.path.join(core.OUT, "replays", "C09")
+            os.makedirs(rdir, exist_ok=True)
+            with open(os.path.join(rdir, f"fuzz-input-{data.hex()[:16]}.json"), "w") as fh:
+                import json
+                json.dump({"property": "C09", "sub": "fuzz-structured", "case": {"hex": data.hex()}}, fh)
+            check_fuzz_input({"hex": data.hex()})  # raises the Violation with the oracle's own message
+            raise Violation("fuzz-crash", f"atheris stopped on input {data.hex()} but the target does not fail on replay: "
+                                          f"{r.stderr[-300:]}")
+        if r.returncode != 0:
+            raise RuntimeError(f"atheris run failed: {r.stderr[-500:]}")
+        core.add_evaluations(case["runs"])
+
+
 def enum_large(tier):
     """fields with more than 100 000 numbers: the writer works in chunks of that size"""
     for rep in REPS:
@@ -400,4 +461,7 @@ SUBS = [
     Sub("truncation", check_truncation, enum=enum_truncation, enum_shards=lambda t: 4 if t == "quick" else 12),
     Sub("check-value", check_check_value, enum=enum_check_value, enum_shards=lambda t: 2 if t == "quick" else 4),
     Sub("sidecar", check_sidecar, sidecar_case(), quick=120, thorough=800),
+    Sub("fuzz-structured", check_fuzz_input, st.binary(min_size=1, max_size=40).map(lambda b: {"hex": b.hex()}),
+        quick=1500, thorough=20000),
+    Sub("fuzz-atheris", check_atheris_campaign, enum=enum_atheris, enum_shards=lambda t: 8),
 ]
